@@ -192,7 +192,16 @@ def run_unit(name, repo=None, seed=None, rlimit=60, extra_tag="", canary=False, 
             else:
                 fail["callee"] = "std/vstd function (panic-freedom precondition)"
         elif kind == "invariant":
-            cl = prim[0] if prim else None
+            # at loop entry / end of body the primary span is the failed clause; at a `continue`/`break` the primary span is
+            # that statement and the failed clause is a secondary span
+            cl = None
+            for sp in prim + sec:
+                mm = meta[sp["line_start"] - 1]
+                if mm and mm.get("labels"):
+                    cl = sp
+                    break
+            if cl is None:
+                cl = prim[0] if prim else None
             if cl:
                 m = meta[cl["line_start"] - 1]
                 if m:
@@ -200,6 +209,8 @@ def run_unit(name, repo=None, seed=None, rlimit=60, extra_tag="", canary=False, 
                     fail["clause"] = m.get("clause")
                     fail["fn"] = m.get("fn")
                 fail["line"] = cl["line_start"]
+                if fail["fn"] is None:
+                    fail["fn"] = fn_at(cl["line_start"])
         else:
             site = prim[0] if prim else None
             if site:
